@@ -157,6 +157,7 @@ def mk_set_order(name, args, params=None):
 HISTORIES = [
     ('tri_ASP', []), ('pep8', ['-d']), ('lig_MTX', []), ('pair_GLU_ARG_TYR', ['--protonate-all']), ('tri_HIS', ['-k']),
     ('pair_ASP_ASP', ['-c', 'B']), ('pair_LYS_ASP', ['-i', 'A:43']), ('unknown-element', []), ('other-parameters', []),
+    ('lig_MTX-other-snapshot', []),     # the same ligand under the same labels with one ring atom out of the plane (types differently)
 ]
 
 
@@ -173,6 +174,8 @@ def o_history(ctx):
             if hname == 'unknown-element':
                 txt = M.text('tri_ASP') + H.pdb_line(900, 'XX1', 'UNK', 'A', 900, 30.0, 30.0, 30.0, rec='HETATM', element='Xx')
                 M.run(txt)
+            elif hname == 'lig_MTX-other-snapshot':
+                M.run(M.moved(M.text('lig_MTX'), 161, 'C2', (0.0, 0.6, 0.6)))
             elif hname == 'other-parameters':
                 import propka.run as R
                 import propka.parameters as PP
@@ -208,6 +211,8 @@ def _run_history_item(hname, hargs):
     try:
         if hname == 'unknown-element':
             M.run(M.text('tri_ASP') + H.pdb_line(900, 'XX1', 'UNK', 'A', 900, 30.0, 30.0, 30.0, rec='HETATM', element='Xx'))
+        elif hname == 'lig_MTX-other-snapshot':
+            M.run(M.moved(M.text('lig_MTX'), 161, 'C2', (0.0, 0.6, 0.6)))
         elif hname == 'other-parameters':
             import propka.parameters as PP
             orig = PP.Parameters.parse_line
@@ -544,14 +549,14 @@ def obligations(tier):
                               stop_on_violation=False))
     obs.append(Obligation('O2-history-independence', o_history,
                           code=['propka/group.py:PROTONATOR', 'propka/coupled_groups.py:NCCG', 'propka/protonate.py:Protonate.valence_electrons', 'propka/atom.py:Atom (class defaults)',
-                                'propka/lib.py:Options (class defaults)', 'propka/run.py:single'],
-                          bounds='4 subject runs x histories of 1-2 earlier runs out of 9 (other structures/options, -d, unknown element, modified Parameters)',
+                                'propka/lib.py:Options (class defaults)', 'propka/ligand.py:assign_sybyl_type', 'propka/run.py:single'],
+                          bounds='4 subject runs x histories of 1-2 earlier runs out of 10 (other structures/options, -d, unknown element, modified Parameters, another snapshot of the same ligand under the same labels)',
                           claim_doc='the subject run gives the same values and text before and after the history', max_paths=100000, shards=16, wall_s=170))
     obs.append(Obligation('O2-history-independence[fresh-interpreter]', o_history_fresh,
                           code=['propka/conformation_container.py:ConformationContainer.__init__', 'propka/molecular_container.py:MolecularContainer.__init__', 'propka/group.py:PROTONATOR',
                                 'propka/coupled_groups.py:NCCG', 'propka/atom.py:Atom (class defaults)', 'propka/run.py:single'],
-                          bounds='4 subject runs x histories of 1-2 earlier runs out of 9, each world in a newly started interpreter; the reference is the subject alone in a pristine interpreter',
-                          claim_doc='the subject run after the history gives the values and text of the subject run alone', max_paths=100000, split_input=('history_0', 9), wall_s=170))
+                          bounds='4 subject runs x histories of 1-2 earlier runs out of 10, each world in a newly started interpreter; the reference is the subject alone in a pristine interpreter',
+                          claim_doc='the subject run after the history gives the values and text of the subject run alone', max_paths=100000, split_input=('history_0', 10), wall_s=170))
     obs.append(Obligation('O4-singleton-purity[NCCG]', o_nccg_purity,
                           code=['propka/coupled_groups.py:NCCG', 'propka/coupled_groups.py:NonCovalentlyCoupledGroups.is_coupled_protonation_state_probability'],
                           bounds='an earlier probe on a concrete structure with symbolic energies, then the probe under test (2 groups + bystander, all values and energies symbolic); pH variable or 7',
